@@ -35,6 +35,25 @@ type Vector struct {
 	Alt     []scm.Stmt       `json:"alt"`
 	Flt     []FltVec         `json:"flt"`
 	Cls     []string         `json:"cls"`
+	FSrc    *scm.Src         `json:"fsrc"` // where the enabled features come from (nil: exactly Feats, by name)
+}
+
+// src is the feature source of the vector.
+func (v *Vector) src() scm.Src {
+	if v.FSrc != nil && v.FSrc.Op != "" {
+		return *v.FSrc
+	}
+	return scm.NamesSrc(v.Feats)
+}
+
+// compileV compiles a module set with the vector's feature source; a failure of the harness itself ends the run.
+func compileV(v *Vector, mods []scm.Stmt, f scm.Filter) scm.Result {
+	r := scm.CompileFrom(mods, v.src(), f)
+	if r.Stage == "harness" {
+		fmt.Fprintln(os.Stderr, "harness failure:", r.Err)
+		os.Exit(2)
+	}
+	return r
 }
 
 // OpenAttr names an attribute of a node (path = node names from the root) that the spec does not judge
@@ -114,6 +133,7 @@ type TraceEvent struct {
 	Judge    bool             `json:"judge"`
 	Mods     []scm.Stmt       `json:"mods"`
 	Feats    [][]string       `json:"feats"`
+	FSrc     scm.Src          `json:"fsrc"`
 	OK       bool             `json:"ok"`
 	Dump     *schemadump.Node `json:"dump"`
 	Filtered []FilteredDump   `json:"filtered"`
@@ -165,7 +185,7 @@ var emptyTree = &schemadump.Node{Kind: "tree", Status: "current", Config: true, 
 
 func judge(id int, v *Vector) (Outcome, *TraceEvent) {
 	o := Outcome{ID: id, Fam: v.Fam, Verdict: v.Verdict, Errs: v.Errs, AltKind: v.AltKind, Cls: v.Cls, Mism: []Mism{}}
-	r := scm.Compile(v.Mods, v.Feats, scm.Filter{Op: "none"})
+	r := compileV(v, v.Mods, scm.Filter{Op: "none"})
 	o.CodeOK, o.CodeErr = r.OK, short(r.Err)
 	h := sha1.New()
 	for _, t := range r.Texts {
@@ -176,6 +196,10 @@ func judge(id int, v *Vector) (Outcome, *TraceEvent) {
 		L int
 	}{v.Feats, len(v.Flt)})
 	h.Write(fb)
+	if v.FSrc != nil && v.FSrc.Op != "" && v.FSrc.Op != "names" {
+		sb, _ := json.Marshal(v.FSrc)
+		h.Write(sb)
+	}
 	o.Key = hex.EncodeToString(h.Sum(nil))[:16]
 	if id%1000000 == 1 {
 		o.Texts = r.Texts // a sample of what was compiled, for the evidence file
@@ -187,7 +211,7 @@ func judge(id int, v *Vector) (Outcome, *TraceEvent) {
 	}
 	if v.Verdict == "record" {
 		// a sampled module set without expectation: log what the code does, the trace validator judges it
-		ev := &TraceEvent{ID: id, Judge: true, Mods: v.Mods, OK: r.OK, Dump: r.Dump, Feats: [][]string{}, Filtered: []FilteredDump{}}
+		ev := &TraceEvent{ID: id, Judge: true, Mods: v.Mods, OK: r.OK, Dump: r.Dump, Feats: [][]string{}, FSrc: v.src().Norm(), Filtered: []FilteredDump{}}
 		for _, f := range v.Feats {
 			if i := strings.Index(f, ":"); i > 0 {
 				ev.Feats = append(ev.Feats, []string{f[:i], f[i+1:]})
@@ -197,7 +221,7 @@ func judge(id int, v *Vector) (Outcome, *TraceEvent) {
 			ev.Dump = emptyTree
 		} else {
 			for _, fv := range v.Flt {
-				rf := scm.Compile(v.Mods, v.Feats, fv.F)
+				rf := compileV(v, v.Mods, fv.F)
 				fd := FilteredDump{F: normFilter(fv.F), OK: rf.OK, Dump: rf.Dump}
 				if !rf.OK {
 					fd.Dump = emptyTree
@@ -227,7 +251,7 @@ func judge(id int, v *Vector) (Outcome, *TraceEvent) {
 		add(diffMism("model-vs-code", v.Schema, r.Dump, optModel, ""))
 	}
 	if v.AltKind != "none" {
-		ra := scm.Compile(v.Alt, v.Feats, scm.Filter{Op: "none"})
+		ra := compileV(v, v.Alt, scm.Filter{Op: "none"})
 		o.AltText = ra.Texts
 		if verdictOf(ra) != verdictOf(r) {
 			add(&Mism{Cmp: "alt-vs-original", Attr: "verdict", Want: verdictOf(r) + " " + short(r.Err), Got: verdictOf(ra) + " " + short(ra.Err)})
@@ -265,9 +289,9 @@ func filterEvent(id int, v *Vector, r scm.Result, each func(FltVec, scm.Result))
 	if len(v.Flt) == 0 || !r.OK {
 		return nil
 	}
-	ev := &TraceEvent{ID: id, Mods: v.Mods, OK: true, Dump: r.Dump, Feats: [][]string{}, Filtered: []FilteredDump{}}
+	ev := &TraceEvent{ID: id, Mods: v.Mods, OK: true, Dump: r.Dump, Feats: [][]string{}, FSrc: v.src().Norm(), Filtered: []FilteredDump{}}
 	for _, fv := range v.Flt {
-		rf := scm.Compile(v.Mods, v.Feats, fv.F)
+		rf := compileV(v, v.Mods, fv.F)
 		fd := FilteredDump{F: normFilter(fv.F), OK: rf.OK, Dump: rf.Dump}
 		if !rf.OK {
 			fd.Dump = emptyTree
